@@ -323,8 +323,6 @@ def e2e(ctx, variant, found):
 
 def run(ctx):
     ctx.build()
-    if getattr(ctx, "replay_file", None):
-        return run_replay_file(ctx)
     t = ctx.thorough
     ctx.assumptions += [
         "2 addresses x 2 types in the selector models (3 addresses for RRFair), <= 4 host set operations, 2 concurrent selectors "
@@ -413,9 +411,10 @@ def run(ctx):
                        "non-trivial = has a host operation and a connection)")
 
 
-def run_replay_file(ctx):
-    with open(ctx.replay_file) as f:
-        art = json.load(f)["artefact"]
+def replay(ctx, rep):
+    """bin/check <id> --replay <file>: re-execute the recorded case (policy path or e2e behaviour)."""
+    ctx.build()
+    art = rep["artefact"]
     mc(ctx, "Balance", "MC_Balance_rr_quick.cfg", workers=8, timeout=600)
     found = {}
     if art.get("kind") == "c06-policy":
@@ -446,9 +445,9 @@ def run_replay_file(ctx):
         s, o = art["steps"][-1], r["obs"][-1]
         if s["op"] == "Conn":
             if (o["backend"] != 0 and o["backend"] not in s["allowed"]) or (o["backend"] == 0 and s["allowed"]):
-                ctx.violation("replayed", "connection went to backend %d, allowed %s" % (o["backend"], s["allowed"]), art)
+                ctx.violation(rep.get("signature", "replayed"), "connection went to backend %d, allowed %s" % (o["backend"], s["allowed"]), art)
         elif o.get("mustStillOpen"):
-            ctx.violation("replayed", "connections %s still open after their host was removed" % o["mustStillOpen"], art)
+            ctx.violation(rep.get("signature", "replayed"), "connections %s still open after their host was removed" % o["mustStillOpen"], art)
     else:
         raise kit.Inconclusive("replay of %s artefacts is not supported" % art.get("kind"))
     ctx.cov["rule"] = "replay of one recorded case"
